@@ -1,9 +1,9 @@
 /-
-  C10 — COSE_Key / COSE_KeySet: accepted only if well-formed, parameters map to fields.
-  Proved: "accepted ⇒ well-formed ∧ fields = wire" in full, key-set iff, mandatory key type; the converse direction for single keys
-  is covered by the correspondence stream (named in MANIFEST.level_note).
+  C10 — COSE_Key / COSE_KeySet: accepted iff well-formed, parameters map to fields.
+  `accepted_is_wellformed` (⇒, with every field = wire value), `wellformed_is_accepted` / `accepted_iff` (⇐, any wire order), key-set iff.
 -/
 import CosetProofs.KeyFields
+import CosetProofs.KeyConverse
 import CosetProofs.Shapes
 namespace Coset.Props.C10
 open Coset Coset.Spec
@@ -109,6 +109,69 @@ theorem accepted_is_wellformed (v : Value) (k : CoseKey) (hok : CoseKey.fromValu
     | panic p => simp [hl] at hok
   | _ => simp [CoseKey.fromValue, tryAsMap, typeError] at hok
 
+theorem lookupL_of_mem (l : Label) (v : Value) : ∀ (ps : List (Label × Value)), (ps.map (·.1)).Nodup → (l, v) ∈ ps → lookupL l ps = some v := by
+  intro ps
+  induction ps with
+  | nil => intro _ h; cases h
+  | cons p ps ih =>
+    intro hnd hm
+    obtain ⟨l', v'⟩ := p
+    simp only [List.map_cons, List.nodup_cons] at hnd
+    rw [lookupL_cons]
+    rcases List.mem_cons.mp hm with h | h
+    · cases h; simp
+    · have : l' ≠ l := by
+        intro e; subst e
+        exact hnd.1 (List.mem_map.mpr ⟨(l', v), h, rfl⟩)
+      simp [this, ih hnd.2 h]
+
+/-- C10 (⇐): distinct labels, a key type present that is registered-and-not-reserved or text, every common parameter present in its shape
+    (key operations: a non-empty array the set-building loop accepts, i.e. decodable and pairwise distinct) ⇒ accepted, in any wire order. -/
+theorem wellformed_is_accepted (m : List (Value × Value)) (ls : List Label) (hk : keyLabels m = .ok ls) (hnd : ls.Nodup)
+    (hall : ∀ p ∈ ls.zip (m.map (·.2)), KeyEntryOk p.1 p.2)
+    (hkty : ∃ w t, (Label.int 1, w) ∈ ls.zip (m.map (·.2)) ∧ RegLabel.fromValue Reg.keyType w = .ok t ∧ t ≠ .assigned ktyReservedIdx) :
+    ∃ k, CoseKey.fromValue (.map m) = .ok k := wellformed_key_accepted m ls hk hnd hall hkty
+
+/-- C10 as an equivalence. -/
+theorem accepted_iff (v : Value) :
+    (∃ k, CoseKey.fromValue v = .ok k) ↔
+      ∃ m ls, v = .map m ∧ keyLabels m = .ok ls ∧ ls.Nodup ∧ (∀ p ∈ ls.zip (m.map (·.2)), KeyEntryOk p.1 p.2) ∧
+        ∃ w t, (Label.int 1, w) ∈ ls.zip (m.map (·.2)) ∧ RegLabel.fromValue Reg.keyType w = .ok t ∧ t ≠ .assigned ktyReservedIdx := by
+  constructor
+  · rintro ⟨k, hok⟩
+    obtain ⟨m, ls, rfl, hk, hnd, ko, hres, ⟨w, hw⟩⟩ := accepted_is_wellformed v k hok
+    have hlen : ls.length = (m.map (·.2)).length := by
+      have : ∀ (xs : List Value) (ys : List Label), mapRes Label.fromValue xs = .ok ys → ys.length = xs.length := by
+        intro xs; induction xs with
+        | nil => intro ys h; simp [mapRes] at h; subst h; rfl
+        | cons x xs ih => intro ys h; rw [mapRes_cons_ok] at h; obtain ⟨y, ys', _, h2, rfl⟩ := h; simp [ih ys' h2]
+      simpa [keyLabels] using this _ _ hk
+    have hfst : (ls.zip (m.map (·.2))).map (·.1) = ls := by rw [List.map_fst_zip]; omega
+    have hnd' : ((ls.zip (m.map (·.2))).map (·.1)).Nodup := by rw [hfst]; exact hnd
+    refine ⟨m, ls, rfl, hk, hnd, ?_, ?_⟩
+    · intro p hp
+      obtain ⟨l, x⟩ := p
+      have hl := lookupL_of_mem l x _ hnd' hp
+      refine ⟨?_, ?_, ?_, ?_⟩
+      · intro e; subst e; have := ko.kty; rw [hl] at this; obtain ⟨t, h1, _⟩ := this; exact ⟨t, h1⟩
+      · rintro (e | e) <;> subst e
+        · have := ko.keyId; rw [hl] at this; obtain ⟨b, h1, h2, _⟩ := this; exact ⟨b, h1, h2⟩
+        · have := ko.baseIv; rw [hl] at this; obtain ⟨b, h1, h2, _⟩ := this; exact ⟨b, h1, h2⟩
+      · intro e; subst e; have := ko.alg; rw [hl] at this; obtain ⟨a, h1, _⟩ := this; exact ⟨a, h1⟩
+      · intro e; subst e; have := ko.keyOps; rw [hl] at this; obtain ⟨a, s, h1, h2, h3, _⟩ := this; exact ⟨a, s, h1, h2, h3⟩
+    · have hk1 := ko.kty
+      rw [hw] at hk1
+      obtain ⟨t, h1, h2⟩ := hk1
+      have hmem : (Label.int 1, w) ∈ ls.zip (m.map (·.2)) := by
+        simp only [lookupL, Option.map_eq_some_iff] at hw
+        obtain ⟨p, hp, rfl⟩ := hw
+        have a1 := List.mem_of_find?_eq_some hp
+        have a2 := List.find?_some hp
+        simp at a2; rw [← a2]; exact a1
+      exact ⟨w, t, hmem, h1, by rw [← h2]; exact hres⟩
+  · rintro ⟨m, ls, rfl, hk, hnd, hall, hkty⟩
+    exact wellformed_is_accepted m ls hk hnd hall hkty
+
 /-- a missing key type and a reserved key type (`1: 0`) are both rejected; a text key type is never confused with the default. -/
 example : (CoseKey.fromValue (.map [])).isOk = false ∧ (CoseKey.fromValue (.map [(.int 1, .int 0)])).isOk = false ∧
     (CoseKey.fromValue (.map [(.int 1, .text [])])).isOk = true ∧ (CoseKey.fromValue (.map [(.int 1, .int 4)])).isOk = true := by decide +kernel
@@ -143,6 +206,8 @@ theorem depends_only_on_value (b1 b2 : Bytes) (v : Value) (h1 : readToValue b1 =
 #print axioms setInsert_some
 #print axioms key_ops_set
 #print axioms accepted_is_wellformed
+#print axioms wellformed_is_accepted
+#print axioms accepted_iff
 #print axioms keyset_iff
 #print axioms keyset_elementwise
 #print axioms depends_only_on_value
